@@ -16,6 +16,7 @@
     not stated as theorems. *)
 From Coq Require Import List NArith Bool.
 From LS Require Import Base.Bytes Base.PMap Wal.Reader Wal.Proofs Db.Image Db.Proofs.
+Require LS.Db.Bridge.
 Import ListNotations.
 Open Scope N_scope.
 
@@ -34,6 +35,27 @@ Theorem chunk_cut_at_commit : forall fs r maxb,
     (pr_map p <> [] -> pr_commit p = snd (mxr (firstn n vp))).
 Proof. exact Proofs.chunk_cut_at_commit_lemma. Qed.
 Print Assumptions chunk_cut_at_commit.
+
+(** ... and the page IMAGES sync reads at those offsets (24-byte frame header
+    skipped) are the abstract chunk's pages [Image.chunk_page] — the bridge from
+    the byte-level reader to the abstract file semantics used by
+    [sync_incremental_correct]: the last image of each page within the chunk of
+    whole transactions, nothing above the chunk's final commit size. *)
+Theorem sync_pages_are_chunk_pages : forall fs r maxb,
+  let vf := LS.Db.Bridge.ls_valid_frames (r_bo r) (r_s1 r) (r_s2 r) (r_c1 r, r_c2 r)
+                            (skipn (N.to_nat (r_frameN r)) fs) in
+  let p := page_map fs r maxb in
+  exists n,
+    (n <= length vf)%nat /\
+    let chunk := firstn (fst (mxr (map LS.Db.Bridge.key_of (firstn n vf)))) vf in
+    (pr_limited p = true -> fst (mxr (map LS.Db.Bridge.key_of (firstn n vf))) = n /\ (0 < n)%nat) /\
+    (pr_map p <> [] ->
+       pr_commit p = last_commit (list N) 0 (map LS.Db.Bridge.frame_of_bytes chunk)) /\
+    (forall pg,
+       option_map (LS.Db.Bridge.data_at fs (r_ps r)) (pm_get pg (pr_map p)) =
+       chunk_page (list N) (map LS.Db.Bridge.frame_of_bytes chunk) (snd (mxr (map LS.Db.Bridge.key_of (firstn n vf)))) pg).
+Proof. exact LS.Db.Bridge.sync_pages_are_chunk_pages_lemma. Qed.
+Print Assumptions sync_pages_are_chunk_pages.
 
 (** the committed state after two consecutive chunks is the state after the first, advanced by the second *)
 Theorem view_compose : forall (data : Type) im (a b : list (frame data)) pg,
